@@ -576,13 +576,23 @@ lyd_diff_userord_attrs(const struct lyd_node *first, const struct lyd_node *seco
                 break;
             }
         }
-        assert(first_pos < LY_ARRAY_COUNT(userord_item->inst));
+        if (first_pos == LY_ARRAY_COUNT(userord_item->inst)) {
+            /* the instances do not follow one another in the siblings */
+            LOGINT_RET(schema->module->ctx);
+        }
     } else {
         first_pos = 0;
     }
 
     /* prepare position of the next instance */
     second_pos = userord_item->pos++;
+
+    if (first && second && (first_pos < second_pos)) {
+        /* all the preceding instances are final so first was already matched with a previous second instance,
+         * possible only for duplicate instances (invalid data), which need to be created */
+        first = NULL;
+        first_pos = 0;
+    }
 
     /* learn operation first */
     if (!second) {
